@@ -108,8 +108,8 @@ def gen_case(rng, op, sig, w, n):
 
 def gen(rng, tier):
     thorough = tier == "thorough"
-    configs = CONFIGS_ALL if thorough else [(8, 1), (8, 3), (8, 5), (16, 2), (16, 3), (32, 1), (32, 3), (64, 1), (64, 2), (64, 3)]
-    per = 60 if thorough else 7
+    configs = CONFIGS_SMALL
+    per = 80 if thorough else 7
     out = []
     for op, sig in OPS.items():
         for (w, n) in configs:
